@@ -67,6 +67,31 @@ def predicate_body(ctx, f, arg):
             if isinstance(n, ast.Assign) and len(n.targets) == 1 and isinstance(n.targets[0], ast.Name) \
                     and n.targets[0].id == arg.id and isinstance(n.value, ast.Lambda):
                 return predicate_body(ctx, f, n.value)
+        # a module-level function used as the predicate
+        h = f.module.functions.get(arg.id) if hasattr(f.module, "functions") else None
+        if h is not None:
+            rets = [n.value for n in walk_shallow(h.node) if isinstance(n, ast.Return) and n.value is not None]
+            return (h.params[0] if h.params else None), rets
+    # functools.partial(function, bound arguments...): the predicate's parameter is the first one that is not bound; the bound ones
+    # stand for the arguments given (their names are substituted into the returned expressions when they are plain names)
+    if isinstance(arg, ast.Call) and fn_name(arg) == "partial" and arg.args and isinstance(arg.args[0], ast.Name) and not arg.keywords:
+        h = f.module.functions.get(arg.args[0].id) if hasattr(f.module, "functions") else None
+        if h is not None and len(arg.args) - 1 < len(h.params):
+            bound = dict(zip(h.params, arg.args[1:]))
+            free = [p_ for p_ in h.params if p_ not in bound]
+            import copy as _copy
+
+            class _Sub(ast.NodeTransformer):
+                def visit_Name(self, n):
+                    if n.id in bound and isinstance(n.ctx, ast.Load) and isinstance(bound[n.id], ast.Name):
+                        return ast.copy_location(ast.Name(id=bound[n.id].id, ctx=ast.Load()), n)
+                    return n
+            rets = []
+            for n in walk_shallow(h.node):
+                if isinstance(n, ast.Return) and n.value is not None:
+                    e_ = ast.Expression(body=_copy.deepcopy(n.value, {id(getattr(n.value, "_parent", None)): getattr(n.value, "_parent", None)}))
+                    rets.append(_Sub().visit(e_).body)
+            return (free[0] if free else None), rets
     return None, None
 
 
